@@ -170,6 +170,7 @@ fn c03_node(u: &mut U, depth: u8, budget: &mut usize) -> c03::Node {
         8..=10 => Node::While(0, c03_script(u), c03_body(u, depth - 1, budget)),
         11 => Node::If(0, c03_script(u), c03_body(u, depth - 1, budget)),
         12 => Node::IfElse(0, c03_script(u), c03_body(u, depth - 1, budget), c03_body(u, depth - 1, budget)),
+        13 => Node::ScopeWith(c03_body(u, depth - 1, budget)),
         _ => Node::Scope(c03_body(u, depth - 1, budget)),
     }
 }
@@ -191,7 +192,7 @@ pub fn decode_c03(data: &[u8]) -> c03::Case {
     }
     let (mut a, mut b) = (0, 0);
     c03::normalise(&mut tree, &mut a, &mut b);
-    c03::Case { tree, seeds, outer_scope: flags & 64 != 0, fault }
+    c03::Case { tree, seeds, outer_scope: flags & 64 != 0, fault, seed_iterations: if flags & 128 != 0 { Some(40) } else { None } }
 }
 
 // ---- C04 ----
